@@ -18,6 +18,10 @@ class Tracer:
         self.fired = False
         self.log_f = open(log_path, 'a') if log_path else None
         self.notes = []
+        # deferred delivery (mode 'defer:<d>'): the control thread gets the request at event k, raises at event k+1+d
+        self.fire_at = None
+        self.got = threading.Event()
+        self.go = threading.Event()
 
     def _log(self, ln):
         self.trace.append(ln)
@@ -32,6 +36,17 @@ class Tracer:
         if self.k is not None and idx == self.k and not self.fired:
             self.fired = True
             self.fire()
+        elif self.fire_at is not None and idx == self.fire_at:
+            # the delayed control thread may raise now: wait here for the exception
+            self.fire_at = None
+            self.go.set()
+            t0 = time.time()
+            while time.time() - t0 < 0.7:
+                time.sleep(0.0005)
+            self.notes.append('deferred-raise-never-arrived')
+            if self.log_f:
+                self.log_f.write('timeout\n')
+                self.log_f.flush()
 
     def fire(self):
         if self.mode == 'kill':
@@ -43,6 +58,23 @@ class Tracer:
         elif self.mode == 'raise':
             from pyworkers.worker import WorkerTerminatedError
             raise WorkerTerminatedError()
+        elif self.mode.startswith('defer'):
+            d = int(self.mode.split(':')[1])
+            self._install_defer()
+            if self.reached is not None:
+                self.reached.set()
+            if self.sync_path:
+                with open(self.sync_path, 'w') as f:
+                    f.write('reached')
+            # hold the working thread here until the control thread has received the request ...
+            if not self.got.wait(3):
+                self.notes.append('terminate-never-arrived')
+                if self.log_f:
+                    self.log_f.write('timeout\n')
+                    self.log_f.flush()
+                return
+            # ... and let it run on: the control thread raises d line events later (or when it is joined)
+            self.fire_at = self.count + d
         elif self.mode == 'terminate':
             # let the parent call the real terminate() now and wait here for the asynchronous exception
             if self.reached is not None:
@@ -57,6 +89,28 @@ class Tracer:
             if self.log_f:
                 self.log_f.write('timeout\n')
                 self.log_f.flush()
+
+    def _install_defer(self):
+        """wrap foreign_raise where the control threads look it up: the request is `received` when the wrapper is
+        entered; the exception is raised when the working thread reaches its chosen line event - or after 0.6 s,
+        which is what happens when the working thread is blocked joining the control thread"""
+        import importlib
+        tr = self
+        for name in ('pyworkers.process', 'pyworkers.remote'):
+            try:
+                m = importlib.import_module(name)
+            except Exception:
+                continue
+            orig = m.foreign_raise
+            if getattr(orig, '_pwv', False):
+                continue
+
+            def delayed(*a, _orig=orig, **k):
+                tr.got.set()
+                tr.go.wait(0.6)
+                return _orig(*a, **k)
+            delayed._pwv = True
+            m.foreign_raise = delayed
 
     def global_trace(self, frame, event, arg):
         if event != 'call':
